@@ -1,5 +1,5 @@
 (* Positional comparison: every entry is truthful, SAME entries compare equal
-   and CHANGE entries unequal under Python's ==, the diff is total (fuel
+   and CHANGE entries unequal under Differ._same_data, the diff is total (fuel
    suffices, nothing raises), for all document pairs. *)
 From Coq Require Import List Ascii String ZArith NArith Bool Arith Lia Permutation.
 From YP Require Import Outcome PyStr PyVal Doc Diff C06Spec DiffBase.
@@ -21,8 +21,8 @@ Section Pos.
 
   Definition good (e : entry) : Prop :=
     truthful L R e /\
-    (e_action e = ASame -> node_eq (e_lhs e) (e_rhs e) = true) /\
-    (e_action e = AChange -> node_eq (e_lhs e) (e_rhs e) = false).
+    (e_action e = ASame -> val_eq (e_lhs e) (e_rhs e) = true) /\
+    (e_action e = AChange -> val_eq (e_lhs e) (e_rhs e) = false).
 
   Definition rec_good (rec : rec_t) : Prop :=
     forall path q l r par pref a a',
@@ -47,7 +47,7 @@ Section Pos.
     lookup L q = Some l -> lookup R q = Some r -> good (cmp_entry path q l r).
   Proof.
     intros. unfold good, truthful, cmp_entry; simpl.
-    destruct (node_eq l r) eqn:E; simpl; repeat split; auto; discriminate.
+    destruct (val_eq l r) eqn:E; simpl; repeat split; auto; discriminate.
   Qed.
 
   Lemma Forall_rev_map_app {A} (f : A -> entry) (P : entry -> Prop) : forall l a,
@@ -59,13 +59,13 @@ Section Pos.
     - rewrite Forall_forall in Ha; auto.
   Qed.
 
-  Lemma purge_good : forall path q l a,
-    lookup L q = Some l -> Forall good a -> Forall good (purge path q l a).
+  Lemma purge_good : forall path q l root a,
+    lookup L q = Some l -> Forall good a -> Forall good (purge path q l root a).
   Proof.
-    intros path q l a Hl Ha.
+    intros path q l root a Hl Ha.
     pose proof (wf_lookup _ _ _ HwfL Hl) as Hwf.
     destruct l as [i v|i kvs|i els|i els]; simpl.
-    - destruct v; simpl; auto; constructor; auto;
+    - destruct v, root; simpl; auto; constructor; auto;
         unfold good, truthful, del_entry; simpl; repeat split; try discriminate; auto.
     - destruct (wf_map_inv _ _ Hwf) as [H1 [H2 _]].
       apply Forall_rev_map_app; auto. intros [k w] Hin. simpl.
@@ -77,13 +77,13 @@ Section Pos.
       eapply good_del; eauto. simpl. apply find_member_in; auto.
   Qed.
 
-  Lemma add_everything_good : forall path q r a,
-    lookup R q = Some r -> Forall good a -> Forall good (add_everything path q r a).
+  Lemma add_everything_good : forall path q r root a,
+    lookup R q = Some r -> Forall good a -> Forall good (add_everything path q r root a).
   Proof.
-    intros path q r a Hr Ha.
+    intros path q r root a Hr Ha.
     pose proof (wf_lookup _ _ _ HwfR Hr) as Hwf.
     destruct r as [i v|i kvs|i els|i els]; simpl.
-    - destruct v; simpl; auto; constructor; auto;
+    - destruct v, root; simpl; auto; constructor; auto;
         unfold good, truthful, add_entry; simpl; repeat split; try discriminate; auto.
     - destruct (wf_map_inv _ _ Hwf) as [H1 [H2 _]].
       apply Forall_rev_map_app; auto. intros [k w] Hin. simpl.
@@ -95,15 +95,15 @@ Section Pos.
       eapply good_add; eauto. simpl. apply find_member_in; auto.
   Qed.
 
-  Lemma clash_good : forall path q l r a a',
-    lookup L q = Some l -> lookup R q = Some r -> node_eq l r = false -> Forall good a ->
-    (let a1 := add_everything path q r (purge path q l a) in
+  Lemma clash_good : forall path q l r root a a',
+    lookup L q = Some l -> lookup R q = Some r -> val_eq l r = false -> Forall good a ->
+    (let a1 := add_everything path q r root (purge path q l root a) in
      if Nat.eqb (List.length a1) (List.length a)
      then Ok (mkentry AChange path q l r :: a1) else Ok a1) = Ok a' ->
     Forall good a'.
   Proof.
-    intros path q l r a a' Hl Hr Hne Ha H. simpl in H.
-    assert (G : Forall good (add_everything path q r (purge path q l a))).
+    intros path q l r root a a' Hl Hr Hne Ha H. simpl in H.
+    assert (G : Forall good (add_everything path q r root (purge path q l root a))).
     { apply add_everything_good; auto. apply purge_good; auto. }
     destruct (Nat.eqb _ _); inversion H; subst; auto.
     constructor; auto. unfold good, truthful; simpl. repeat split; auto; discriminate.
@@ -250,11 +250,15 @@ Section Pos.
   Lemma lists_good : forall rec path q i lels j rels par pref a a',
     rec_good rec ->
     lookup L q = Some (NSeq i lels) -> lookup R q = Some (NSeq j rels) ->
-    diff_lists path_eq cfg rec path q (NSeq j rels) lels rels par pref a = Ok a' ->
+    diff_lists path_eq cfg rec path q (NSeq i lels) (NSeq j rels) lels rels par pref a = Ok a' ->
     Forall good a -> Forall good a'.
   Proof.
     intros rec path q i lels j rels par pref a a' Hrec Hl Hr H Ha.
     unfold diff_lists in H.
+    destruct (negb _).
+    { inversion H; subst. constructor; [|constructor; auto].
+      + unfold good, truthful, add_entry; simpl. repeat split; auto; discriminate.
+      + unfold good, truthful, del_entry; simpl. repeat split; auto; discriminate. }
     assert (Haoh : forall nc,
       diff_aoh path_eq cfg rec path q (NSeq j rels) lels rels nc a = Ok a' -> Forall good a').
     { intros nc H'. unfold diff_aoh in H'. destruct Hpos as [_ Hp2].
@@ -267,7 +271,7 @@ Section Pos.
   Proof.
     intros rec Hrec path q l r par pref a a' Hl Hr H Ha.
     destruct l as [i v|i lkvs|i lels|i lels], r as [j w|j rkvs|j rels|j rels]; simpl in H;
-      try (eapply clash_good; [exact Hl | exact Hr | reflexivity | exact Ha | exact H]).
+      try (eapply (clash_good path q _ _ (match par with None => true | Some _ => false end)); [exact Hl | exact Hr | simpl; apply andb_false_r | exact Ha | exact H]).
     - inversion H; subst. constructor; auto. apply good_cmp; auto.
     - eapply dicts_good; eauto.
     - eapply lists_good; eauto.
@@ -308,7 +312,7 @@ Lemma positional_same_py :
   forall path_eq cfg L R es,
     positional cfg -> wf_doc L = true -> wf_doc R = true ->
     compare_to path_eq cfg L R = Ok es ->
-    Forall (fun e => e_action e = ASame -> node_eq (e_lhs e) (e_rhs e) = true) es.
+    Forall (fun e => e_action e = ASame -> val_eq (e_lhs e) (e_rhs e) = true) es.
 Proof.
   intros path_eq cfg L R es Hp HL HR H.
   pose proof (compare_to_good path_eq cfg Hp L R HL HR es H) as G.
@@ -319,7 +323,7 @@ Lemma positional_change_py :
   forall path_eq cfg L R es,
     positional cfg -> wf_doc L = true -> wf_doc R = true ->
     compare_to path_eq cfg L R = Ok es ->
-    Forall (fun e => e_action e = AChange -> node_eq (e_lhs e) (e_rhs e) = false) es.
+    Forall (fun e => e_action e = AChange -> val_eq (e_lhs e) (e_rhs e) = false) es.
 Proof.
   intros path_eq cfg L R es Hp HL HR H.
   pose proof (compare_to_good path_eq cfg Hp L R HL HR es H) as G.
